@@ -114,7 +114,6 @@ class Fn:
         return [e]
 
 
-_FNS: Dict[str, 'Fn'] = {}
 
 
 def _mask_bound(fn: Fn, e: Dict[str, Any], _depth: int = 0) -> Optional[Tuple[str, Any]]:
@@ -130,8 +129,9 @@ def _mask_bound(fn: Fn, e: Dict[str, Any], _depth: int = 0) -> Optional[Tuple[st
             for c in walk(fn.cu.body(caller)):
                 if c.get('kind') == 'CallExpr' and callee(c) == fn.name:
                     sites += 1
-                    cf = _FNS.get(caller) or Fn(fn.cu, caller)
-                    _FNS[caller] = cf
+                    cache = fn.cu.__dict__.setdefault('_c11_fn_cache', {})      # per translation unit, never across variants
+                    cf = cache.get(caller) or Fn(fn.cu, caller)
+                    cache[caller] = cf
                     mb = _mask_bound(cf, call_args(c)[pi], _depth + 1)
                     if mb is None:
                         return None
@@ -271,8 +271,9 @@ def _judge_subscript(rep: Report, cu: CUnit, fn: Fn, sub: Dict[str, Any]) -> Non
                 good = []
                 for caller, c in sites:
                     arg = cu.src_of(call_args(c)[pi])
-                    cf = _FNS.get(caller) or Fn(cu, caller)
-                    _FNS[caller] = cf
+                    cache = cu.__dict__.setdefault('_c11_fn_cache', {})
+                    cf = cache.get(caller) or Fn(cu, caller)
+                    cache[caller] = cf
                     alloc_ok = arg == 'low_max_end' and caller == 'mem_decide_storage' and any(
                         cu.src_of(d).startswith('(uint64_t*)malloc((size_t)low_max_end') for d in _member_assigns(cu, cf, 'flat'))
                     good.append(alloc_ok or arg.replace('->', '.') in ('m.flat_count', 'self.flat_count'))
@@ -312,6 +313,14 @@ def _judge_subscript(rep: Report, cu: CUnit, fn: Fn, sub: Dict[str, Any]) -> Non
             non_null = any(op == 'truthy' and lx.show(a) == 'last_ops_ring' for op, a, b in fn.atomic_facts(sub))
             if fn.name == 'run_paged_loop_impl' or non_null:
                 proof = 'index % last_ops_length, ring non-NULL (with_ring clone / NULL test) implies length > 0'
+        si = strip(idx)
+        if not proof and si.get('kind') == 'DeclRefExpr':
+            from ..cfacts import wrapping_cursors
+            cur = wrapping_cursors(cu, fn.name).get(si['referencedDecl']['name'])
+            non_null = any(op == 'truthy' and lx.show(a) == 'last_ops_ring' for op, a, b in fn.atomic_facts(sub))
+            if cur is not None and lx.show(cur['mod']) == 'last_ops_length' and non_null:
+                proof = ('wrapping cursor: defined once as E % last_ops_length, modified only by ++ directly followed by the wrap to 0 at '
+                         'last_ops_length, so index < last_ops_length wherever it is read; ring non-NULL implies length > 0')
     elif fam == 'cstr':
         for op, a, b in fn.atomic_facts(sub):
             if op == 'truthy' and lx.show(a) == owner and int_value(idx) == 0:
@@ -376,6 +385,24 @@ def _judge_deref(rep: Report, cu: CUnit, fn: Fn, sub: Dict[str, Any], outparams:
             # a local that only ever holds the address of an existing lvalue (the expansion of Py_CLEAR / Py_SETREF)
             rep.ok('C11.BOUNDS', construct, f'local pointer defined only as {[cu.src_of(d) for d in adefs][:2]}: the address of an lvalue', site)
             return
+        # a local that holds the result of a unit-local locator function: every return of the locator is NULL or the address of an
+        # lvalue (whose own subscripts are judged inside the locator), and the dereference is dominated by the non-NULL test
+        if adefs and all(d.get('kind') == 'CallExpr' and callee(d) in cu.funcs for d in adefs):
+            locs = {callee(d) for d in adefs}
+            good = True
+            for lf in locs:
+                rets = [r for r in walk(cu.body(lf)) if r.get('kind') == 'ReturnStmt' and r.get('inner')]
+                for r in rets:
+                    v = strip(r['inner'][0])
+                    is_null = cu.src_of(v).replace(' ', '') in ('NULL', '0', '((void*)0)')
+                    is_addr = v.get('kind') == 'UnaryOperator' and v.get('opcode') == '&' and strip(v['inner'][0]).get('kind') in (
+                        'ArraySubscriptExpr', 'MemberExpr', 'DeclRefExpr')
+                    good = good and (is_null or is_addr)
+                good = good and bool(rets)
+            truthy = any(op == 'truthy' and lx.show(a) == name for op, a, b in fn.atomic_facts(sub))
+            if good and truthy:
+                rep.ok('C11.BOUNDS', construct, f'pointer returned by {sorted(locs)}: NULL or the address of an lvalue judged there; non-NULL tested before use', site)
+                return
         if name == 'op_flat_jump':
             truthy = any(op == 'truthy' and lx.show(a) == 'op_flat_jump' for op, a, b in fn.atomic_facts(sub))
             # its only non-NULL definition is flat + word_address + 1 under the window test
